@@ -30,17 +30,24 @@ def run(ctx):
         res = S.replay_all(ctx, files, kind, c)
         cov[kind] = S.judge(ctx, res, kind, focus=lambda r: r['txns'] >= 2)
         cov[kind]['sample'] = res[0]['sig'][:25]
-    ev = sum(v['behaviours'] for v in cov.values())
+    # 3. commit order under concurrency: committer threads on each bundled storage (scheduler: seeded random and
+    #    systematic single-preemption schedules); tids must increase in the order the commits returned
+    from ..drivers import commitconc
+    cc = commitconc.explore(ctx, ('file', 'mapping', 'demo-base'), 45 if q else 1500, 'cc4')
+    ev = sum(v['behaviours'] for v in cov.values() if 'behaviours' in v) + cc['run']
+    cov['committer_schedules'] = cc
     return ctx.finish({
         'evaluations': ev,
-        'distinct_nontrivial': sum(v['nontrivial'] for v in cov.values()),
+        'distinct_nontrivial': sum(v.get('nontrivial', 0) for v in cov.values()),
         'rule': 'TLC -simulate behaviours of ZStorage (3 oids, <=5 transactions, <=3 records each, 3 metadata shapes, '
                 'clock advancing/stalling/stepping back, undo, delete, close/reopen); distinct = distinct action '
                 'sequence; non-trivial = at least 2 committed transactions; after EVERY call the full query table '
                 '(loadBefore at every tid boundary, load, loadSerial, history, iterator, undoLog, lastTransaction, len) '
-                'of the real storage is compared with the table TLC printed for that state',
+                'of the real storage is compared with the table TLC printed for that state; 2-3 committer threads per storage kind run under the '
+                'cooperative scheduler (seeded random and systematic single-preemption schedules) and the storage must equal the '
+                'TLC-evaluated serial execution in the order the commits returned',
         'traces_validated_against_impl': ev,
         'per_storage': cov,
-        'samples': [cov[k]['sample'] for k in cov],
+        'samples': [cov[k]['sample'] for k in cov if 'sample' in cov[k]],
         'exhaustive': False,
     }, ASSUME)
